@@ -7,3 +7,4 @@ INVARIANT RemoveUsedDecl
 INVARIANT LostParent
 INVARIANT ForeignScope
 CHECK_DEADLOCK FALSE
+INVARIANT DuplicateDecl
